@@ -207,6 +207,8 @@ type AdmitCase struct {
 	Record  bool   `json:"record,omitempty"`
 	KeyMgmt string `json:"keymgmt"` // none valid srtp-enc-off srtcp-enc-off srtp-auth-off no-<param> enc-alg-0 auth-alg-0 keylen-32 two-keys short-key old-time garbage
 	MKI     bool   `json:"mki,omitempty"`
+	// SecondProfile: when the first SETUP is accepted, a second media of the same session is set up with this profile
+	SecondProfile string `json:"second_profile,omitempty"`
 }
 
 func RunAdmit(c AdmitCase) error {
@@ -366,6 +368,30 @@ func runAdmit(c AdmitCase) (int, error) {
 	}
 	if refuse && res.StatusCode < 400 {
 		return int(res.StatusCode), fmt.Errorf("SETUP with Transport %q (KeyMgmt: %s) on a server with TLS=%v was answered %d: %s must be refused", tr, c.KeyMgmt, c.TLS, res.StatusCode, why)
+	}
+	if c.SecondProfile != "" && res.StatusCode == 200 && c.Proto != "mcast" {
+		// the session's second media with the other profile: one session has one profile, so a session that was admitted as
+		// secure must not take a plain media next to it (nor the other way round)
+		tr2 := "RTP/" + c.SecondProfile
+		if c.Proto == "udp" {
+			tr2 += fmt.Sprintf(";unicast;client_port=%d-%d", port+2, port+3)
+		} else {
+			tr2 += "/TCP;unicast;interleaved=2-3"
+		}
+		if c.Record {
+			tr2 += ";mode=record"
+		}
+		tu2, _ := base.ParseURL(w.URL(path + "/trackID=1"))
+		h2 := base.Header{"Transport": base.HeaderValue{tr2}, "Session": base.HeaderValue{sessionIDOf(res)}}
+		if c.SecondProfile == "SAVP" {
+			if hv, err := validKeyMgmtFor(tu2.String()); err == nil {
+				h2["KeyMgmt"] = hv
+			}
+		}
+		res2, cerr, err := r.do(&base.Request{Method: base.Setup, URL: tu2, Header: h2})
+		if cerr == nil && err == nil && res2.StatusCode < 400 && c.SecondProfile != c.Profile {
+			return int(res2.StatusCode), fmt.Errorf("a session set up with %s (TLS=%v, %s) accepted a second media with profile %s (SETUP answered %d): one session, one profile", c.Profile, c.TLS, c.Proto, c.SecondProfile, res2.StatusCode)
+		}
 	}
 	return int(res.StatusCode), nil
 }
